@@ -190,13 +190,22 @@ class _Rename(ast.NodeTransformer):
     return self._scoped(node)
 
 
+_KEYWORDS_IN_USE = set()    # keyword-argument names used anywhere in the package: parameters of that name keep it
+
+
+def note_keywords(tree):
+  for n in ast.walk(tree):
+    if isinstance(n, ast.keyword) and n.arg:
+      _KEYWORDS_IN_USE.add(n.arg)
+
+
 def match_names(cur_params, cur_locals, base):
   """Mapping current name -> reference name."""
   mapping = {}
   bp, bl = base.get('params', []), base.get('locals', [])
   if len(cur_params) == len(bp):
     for a, b in zip(cur_params, bp):
-      if a != b:
+      if a != b and a not in _KEYWORDS_IN_USE:
         mapping[a] = b
   used_b = set()
   base_names = [b[0] for b in bl]
@@ -230,9 +239,13 @@ def match_names(cur_params, cur_locals, base):
   return dict((k, v) for k, v in mapping.items() if k != v)
 
 
-def _is_pure(e):
+def _is_pure(e, attrs=True):
   """Cheap, side-effect free, immutable-valued expression that may be duplicated: names,
-  attributes, constants, arithmetic/comparisons on those and len()/int() of those."""
+  attributes, constants, arithmetic/comparisons on those and len()/int() of those.
+  attrs=False: attribute reads are excluded (an attribute of self may be rebound by another greenlet or a callee
+  between the definition of a temporary and its uses)."""
+  if not attrs and any(isinstance(n, ast.Attribute) for n in ast.walk(e)):
+    return False
   ok_types = (ast.Name, ast.Attribute, ast.Constant, ast.BinOp, ast.UnaryOp, ast.Compare, ast.BoolOp, ast.Load,
               ast.operator, ast.unaryop, ast.cmpop, ast.boolop, ast.Call, ast.Tuple)
   for n in ast.walk(e):
@@ -354,7 +367,7 @@ def inline_new_temporaries(fnode, base_names, stats):
           changed = True
           break
         continue
-      if _is_pure(S.value):
+      if _is_pure(S.value, attrs=False):
         for u in all_uses:
           _replace_node(fnode, u, copy.deepcopy(S.value))
         blk.remove(S)
@@ -436,22 +449,48 @@ def compare_texts(fnode):
   return sorted(set(ast.unparse(n) for n in own_nodes(fnode) if isinstance(n, ast.Compare) and len(n.ops) == 1 and type(n.ops[0]) in _MIRROR))
 
 
+def ifexp_texts(fnode):
+  return sorted(set(ast.unparse(n) for n in own_nodes(fnode) if isinstance(n, ast.IfExp)))
+
+
+def lower_new_ifexps(fnode, base_ifexps, stats):
+  """x = A if c else B  /  return A if c else B  that the reference tree does not have: lowered to an if statement
+  so that path rules see the condition."""
+  for b in _blocks(fnode):
+    i = 0
+    while i < len(b):
+      st = b[i]
+      v = getattr(st, 'value', None)
+      if isinstance(v, ast.IfExp) and ast.unparse(v) not in base_ifexps and isinstance(st, (ast.Assign, ast.Return)) and \
+         (not isinstance(st, ast.Assign) or (len(st.targets) == 1 and isinstance(st.targets[0], (ast.Name, ast.Attribute)))):
+        loc = dict(lineno=st.lineno, col_offset=st.col_offset)
+        if isinstance(st, ast.Assign):
+          mk = lambda val: ast.Assign(targets=[copy.deepcopy(st.targets[0])], value=val, **loc)
+        else:
+          mk = lambda val: ast.Return(value=val, **loc)
+        b[i] = ast.If(test=v.test, body=[mk(v.body)], orelse=[mk(v.orelse)], **loc)
+        stats['ifexps'] = stats.get('ifexps', 0) + 1
+        continue       # the new branches may hold nested conditional expressions
+      i += 1
+  ast.fix_missing_locations(fnode)
+
+
 def aug_texts(fnode):
   return sorted(set(ast.unparse(n) for n in own_nodes(fnode) if isinstance(n, ast.AugAssign)))
 
 
 def restore_augassign(fnode, base_augs, stats):
   """x = x + c where the reference tree writes x += c (same target, same operator, same operand)."""
-  if not base_augs:
-    return
   for b in _blocks(fnode):
     for i, st in enumerate(b):
-      if isinstance(st, ast.Assign) and len(st.targets) == 1 and isinstance(st.value, ast.BinOp) and isinstance(st.targets[0], (ast.Name, ast.Attribute)):
+      if isinstance(st, ast.Assign) and len(st.targets) == 1 and isinstance(st.value, ast.BinOp) and isinstance(st.targets[0], (ast.Name, ast.Attribute, ast.Subscript)):
         t = st.targets[0]
         if ast.unparse(st.value.left) != ast.unparse(t):
           continue
         aug = ast.AugAssign(target=t, op=st.value.op, value=st.value.right, lineno=st.lineno, col_offset=st.col_offset)
-        if ast.unparse(aug) in base_augs:
+        numeric = isinstance(st.value.op, (ast.Add, ast.Sub, ast.Mult, ast.Pow)) and not isinstance(st.value.right, (ast.List, ast.Tuple, ast.Dict, ast.Set, ast.ListComp, ast.JoinedStr)) \
+          and not (isinstance(st.value.right, ast.Constant) and isinstance(st.value.right.value, (str, bytes)))
+        if ast.unparse(aug) in base_augs or numeric:
           b[i] = aug
           stats['augs'] = stats.get('augs', 0) + 1
 
@@ -502,6 +541,10 @@ def rename_function(fnode, rel, qualname, base_funcs, stats):
         break
   except Exception as e:
     stats['temps_error'] = repr(e)
+  try:
+    lower_new_ifexps(fnode, set(base.get('ifexps', [])), stats)
+  except Exception as e:
+    stats['ifexp_error'] = repr(e)
   try:
     restore_augassign(fnode, set(base.get('augs', [])), stats)
   except Exception as e:
@@ -635,7 +678,13 @@ def inline_body(helper, call, is_method, kind, target, caller_locals, base_line=
       return [ast.Return(value=value, **loc)]
     return []
   tail_only = all(any(r is st for st in body[-1:]) for r in rets)
-  if not rets:
+  if kind == 'return' and rets:
+    # the call is the caller's return value: the helper's own returns become the caller's returns, nothing to thread through
+    out = prologue + body
+    last = body[-1] if body else None
+    if not isinstance(last, (ast.Return, ast.Raise)):
+      out = out + [ast.Return(value=ast.Constant(value=None), **loc)]
+  elif not rets:
     out = prologue + body + (finish(None) if kind == 'assign' else ([ast.Return(value=None, **loc)] if kind == 'return' else []))
   elif tail_only and len(rets) == 1:
     out = prologue + body[:-1] + (finish(rets[0].value) if kind != 'return' else [ast.Return(value=rets[0].value, **loc)])
@@ -986,6 +1035,7 @@ def normalize_module(tree, rel, stats=None):
   b = load_baseline()
   if not b.get('functions'):
     return tree
+  note_keywords(tree)
   try:
     strip_logging(tree, stats)
   except Exception as e:
@@ -994,6 +1044,18 @@ def normalize_module(tree, rel, stats=None):
     inline_new_helpers(tree, rel, b.get('inventory', {}), stats)
   except Exception as e:   # normalisation must never break the analysis
     stats['inline_error'] = repr(e)
+
+  rename_pass(tree, rel, stats)
+  return tree
+
+
+def rename_pass(tree, rel, stats=None):
+  """Alpha-renaming / temporaries / orientation of every function of a module against the reference tables
+  (run once per module, and once more after the package-wide attribute renaming, which changes definition shapes)."""
+  stats = stats if stats is not None else {}
+  b = load_baseline()
+  if not b.get('functions'):
+    return
 
   def walk(body, prefix):
     for st in body:
@@ -1010,7 +1072,6 @@ def normalize_module(tree, rel, stats=None):
           stats['rename_error'] = repr(e)
   walk(tree.body, '')
   ast.fix_missing_locations(tree)
-  return tree
 
 
 def class_attr_fps(cnode):
@@ -1091,7 +1152,7 @@ def baseline_of_tree(trees):
 
   def fn(node, rel, q):
     params, locs = local_defs_fp(node)
-    functions[rel + '::' + q] = {'params': params, 'locals': [[nm, fps] for nm, fps in locs], 'compares': compare_texts(node), 'augs': aug_texts(node)}
+    functions[rel + '::' + q] = {'params': params, 'locals': [[nm, fps] for nm, fps in locs], 'compares': compare_texts(node), 'augs': aug_texts(node), 'ifexps': ifexp_texts(node)}
     for n in own_nodes(node):
       if isinstance(n, (ast.FunctionDef, ast.AsyncFunctionDef)):
         fn(n, rel, q + '.' + n.name)
